@@ -631,8 +631,27 @@ class Engine:
         elif k == 'bin':
             op = x.op
             if op in ('&&', '||'):
+                lhs = x.args[0].strip() if x.args[0] is not None else None
+                lv = T.get(lhs.id) if lhs is not None else None
+                if lv is None and x.args[0] is not None:
+                    lv = T.get(x.args[0].id)
+                decided = None
+                if lv is not None and lv is not TOP and len(lv) == 1:
+                    (e0,) = lv
+                    t0 = bool(e0) if isinstance(e0, int) else True
+                    if op == '||' and t0:
+                        decided = 1
+                    elif op == '&&' and not t0:
+                        decided = 0
+                rhs_x = x.args[1]
+                rhs_seen = rhs_x is None or rhs_x.id in T or rhs_x.const is not None or (rhs_x.strip() is not None and rhs_x.strip().id in T)
                 if x.id in T and T[x.id] is not TOP and len(T[x.id]) == 1:
                     pass        # fixed by the short-circuit edge taken on this path
+                elif decided is not None:
+                    T[x.id] = fs(decided)     # the left operand (itself a short-circuit result) already decides: a || b || c
+                elif not rhs_seen:
+                    # the operator is reached without its right operand having been evaluated on this path: short-circuit
+                    T[x.id] = fs(1 if op == '||' else 0)
                 else:
                     b = self.value_of(E, x.args[1]) if x.args[1] is not None and x.args[1].id in T else TOP
                     if b is TOP:
@@ -640,6 +659,10 @@ class Engine:
                     else:
                         T[x.id] = frozenset(int(bool(e)) if isinstance(e, int) else 1 for e in b)
                     T[('rhs', x.id)] = fs(1)      # on this path the value is the right operand's
+                    # consumed: a later visit (loop) that short-circuits must not find this evaluation's right operand
+                    T.pop(x.args[1].id, None)
+                    if x.args[1].strip() is not None:
+                        T.pop(x.args[1].strip().id, None)
             elif op == ',':
                 T[x.id] = self.value_of(E, x.args[1])
             else:
